@@ -3,7 +3,7 @@
 # of the analyser binary (does not touch /repo, safe while the checker sources are being edited)
 cd /verif
 mkdir -p /tmp/sw/out/evidence /tmp/sw/out/replay; cp KNOWN_FINDINGS.txt /tmp/sw/out/
-cp bin/evalsa /tmp/sw/evalsa_snapshot
+cp ${EVALSA:-bin/evalsa} /tmp/sw/evalsa_snapshot
 one() {
   id=$1
   if [ ! -d /tmp/sw/$id ]; then git -C /repo worktree add -f --detach /tmp/sw/$id HEAD -q 2>/dev/null && git -C /tmp/sw/$id apply /verif/seeded/$id/patch.diff || { echo "$id PATCH-FAIL"; return; }; fi
